@@ -849,6 +849,8 @@ struct RtWorld<'a> {
     dropped_unpolled_close: bool,
     /// references forgotten by dropping a never-polled close() future (finding F8c): they keep counting
     leaked_refs: usize,
+    /// the first close() future that was polled (it is the one entitled to wait; later ones get `None`)
+    first_polled: Option<usize>,
 }
 
 fn tcp_pair() -> (std::net::TcpStream, std::net::TcpStream) {
@@ -890,6 +892,7 @@ impl<'a> RtWorld<'a> {
             kind: kind.to_string(),
             dropped_unpolled_close: false,
             leaked_refs: 0,
+            first_polled: None,
         })
     }
 
@@ -1073,6 +1076,9 @@ impl<'a> RtWorld<'a> {
                 let Some(f) = fut.as_mut() else { return None };
                 *polled = true;
                 *wakes_seen = seen;
+                if self.first_polled.is_none() {
+                    self.first_polled = Some(id);
+                }
                 // run the closer to quiescence: poll, and while the close operation is in flight drive the
                 // runtime and poll again. If other holders exist nothing is in flight: one poll.
                 let mut out: Option<io::Result<()>> = None;
@@ -1136,6 +1142,12 @@ impl<'a> RtWorld<'a> {
         }
         if w[0] == "poll" && r == "ready" && !closed && holders_before == 1 {
             ex.fail("C06:close-did-not-close", "close() completed as sole owner but the descriptor is still open");
+        }
+        if w[0] == "poll" && r == "ready" && !closed && holders_before != 1 && self.first_polled == Some(id) {
+            ex.fail(
+                "C06:close-returned-early",
+                format!("close() completed while {} other holders exist, without closing, although no other close() was waiting", holders_before - 1),
+            );
         }
         if w[0] == "poll" && r == "ready" && closed && holders_before != 1 {
             ex.fail("C06:close-before-release", format!("close() closed the descriptor while {} other holders existed", holders_before - 1));
